@@ -387,8 +387,21 @@ func gen(r *Rand) Input {
 			op.Vals = vals
 		case kv < 50:
 			op.Vals = subsetVals(vals)
-		case kv < 62:
+		case kv < 56:
 			op.VErr = true
+		case kv < 63:
+			// the node fails every request that names one account's key (which account may or may
+			// not be known at that time), and would answer the others
+			op.FailOn = all[r.Intn(len(all))]
+			op.Vals = vals
+			if r.Chance(1, 3) {
+				op.Vals = make([]Val, 0, len(vals))
+				for _, v := range vals {
+					nv := genVal(r, e, in.Far)
+					nv.PK, nv.Index = v.PK, v.Index
+					op.Vals = append(op.Vals, nv)
+				}
+			}
 		case kv < 74:
 			// the node knows none of them
 		case kv < 87 && len(vals) >= 2:
